@@ -15,17 +15,17 @@ Open Scope N_scope.
    chunk through these tables - upstream alias -> announced info, data-id alias -> announced or
    pre-registered id, full forms as sent, sequence number and points unchanged - with error code 0;
    or, when some alias is not in the tables, no value and error code 1 or 2. *)
-Theorem c03_resolution : forall v cap pre evs,
+Theorem c03_resolution : forall v fl cap pre evs,
   small_history pre evs ->
-  resolved [] (prereg_table 0 pre) (snd (drun (dinit v cap pre) evs)).
+  resolved [] (prereg_table 0 pre) (snd (drun (dinit v fl cap pre) evs)).
 Proof. exact resolution. Qed.
 Print Assumptions c03_resolution.
 
 (* A chunk that uses an alias the client never announced in the whole history (neither
    pre-registered nor shown by any call) is reported as an error and nothing is delivered. *)
-Theorem c03_unknown_alias_error : forall v cap pre evs c res err nu ni,
+Theorem c03_unknown_alias_error : forall v fl cap pre evs c res err nu ni,
   small_history pre evs ->
-  let outs := snd (drun (dinit v cap pre) evs) in
+  let outs := snd (drun (dinit v fl cap pre) evs) in
   In (ORead (Some c) res err nu ni) outs ->
   ~ aliases_known (minted_ups outs) (prereg_table 0 pre ++ minted_ids outs) c ->
   res = None /\ (err = 1 \/ err = 2).
@@ -33,9 +33,9 @@ Proof. exact unknown_alias_error. Qed.
 Print Assumptions c03_unknown_alias_error.
 
 (* Conversely every delivered chunk used only announced aliases. *)
-Theorem c03_delivered_known : forall v cap pre evs c rc err nu ni,
+Theorem c03_delivered_known : forall v fl cap pre evs c rc err nu ni,
   small_history pre evs ->
-  let outs := snd (drun (dinit v cap pre) evs) in
+  let outs := snd (drun (dinit v fl cap pre) evs) in
   In (ORead (Some c) (Some rc) err nu ni) outs ->
   aliases_known (minted_ups outs) (prereg_table 0 pre ++ minted_ids outs) c /\ err = 0.
 Proof. exact delivered_known. Qed.
@@ -45,21 +45,21 @@ Print Assumptions c03_delivered_known.
    nothing arrives after Close), the chunks consumed by ReadDataPoints followed by those still
    queued are exactly the chunks that arrived, in arrival order; likewise for metadata, and the
    DownstreamMetadataAcks sent are the request ids of the items returned, in the same order. *)
-Theorem c03_once_in_order : forall v cap pre evs,
-  keeps_up cap 0 0 false evs = true ->
-  let r := drun (dinit v cap pre) evs in
+Theorem c03_once_in_order : forall v fl cap pre evs,
+  keeps_up fl cap 0 0 false evs = true ->
+  let r := drun (dinit v fl cap pre) evs in
   arrived_chunks evs = consumed_of (snd r) ++ d_inbox (fst r) /\
-  map meta_pub (arrived_metas evs) = returned_metas (metas_of (snd r)) ++ map meta_pub (d_metabox (fst r)) /\
-  map m_req (arrived_metas evs) = metaacks_of (snd r) ++ map m_req (d_metabox (fst r)).
+  map meta_pub (arrived_metas fl evs) = returned_metas (metas_of (snd r)) ++ map meta_pub (d_metabox (fst r)) /\
+  map m_req (arrived_metas fl evs) = metaacks_of (snd r) ++ map m_req (d_metabox (fst r)).
 Proof. exact once_in_order. Qed.
 Print Assumptions c03_once_in_order.
 
 (* Metadata per source node: the items returned for a node followed by those of that node still
    queued are the items that arrived from it, in order. *)
-Theorem c03_meta_order : forall v cap pre evs src,
-  keeps_up cap 0 0 false evs = true ->
-  let r := drun (dinit v cap pre) evs in
-  filter (fun x : N * N => fst x =? src) (map meta_pub (arrived_metas evs)) =
+Theorem c03_meta_order : forall v fl cap pre evs src,
+  keeps_up fl cap 0 0 false evs = true ->
+  let r := drun (dinit v fl cap pre) evs in
+  filter (fun x : N * N => fst x =? src) (map meta_pub (arrived_metas fl evs)) =
   filter (fun x : N * N => fst x =? src) (returned_metas (metas_of (snd r))) ++
   filter (fun x : N * N => fst x =? src) (map meta_pub (d_metabox (fst r))).
 Proof. exact meta_per_source. Qed.
@@ -73,12 +73,29 @@ Example c03_example :
               ArriveMeta (0, 3, 100); ArriveMeta (1, 5, 101);
               Read false; Arrive (mkChunk 3 (UFull 8) 1 [(DAlias 9, [])]); Read false; Read false; Read false;
               ReadMeta false; ReadMeta false; AckTick true; Close] in
-  let r := drun (dinit current inbox_cap [4]) evs in
-  small_history [4] evs /\ keeps_up inbox_cap 0 0 false evs = true /\
+  let r := drun (dinit current [0; 1; 0] inbox_cap [4]) evs in
+  small_history [4] evs /\ keeps_up [0; 1; 0] inbox_cap 0 0 false evs = true /\
   reads_of (snd r) =
     [(Some (1, 7, [(5, [(1,11,3)]); (5, [(2,22,0)])]), 0, [(1,7)], [(2,5)]);
      (Some (2, 7, [(4, [(3,33,1)]); (5, [])]), 0, [], []);
      (None, 2, [(2,8)], []);
      (None, 3, [], [])] /\
   metas_of (snd r) = [(Some (0, 100), 0); (Some (1, 101), 0)] /\ metaacks_of (snd r) = [3; 5].
+Proof. vm_compute. repeat split; reflexivity. Qed.
+
+(* non-vacuity for the corner inputs: the same data id pre-registered twice before a distinct one
+   (aliases 1,2 -> 4 and 3 -> 6; the next new id gets 4), two filters naming the same source node,
+   metadata of a node that is not subscribed (discarded) *)
+Example c03_example_dups :
+  let evs := [ArriveMeta (0, 3, 100); ArriveMeta (2, 5, 101); ArriveMeta (0, 7, 102);
+              Arrive (mkChunk 1 (UFull 7) 1 [(DFull 9, [(1,11,3)]); (DAlias 3, [])]);
+              Read false;
+              Arrive (mkChunk 2 (UAlias 1) 2 [(DAlias 3, [(2,22,0)]); (DAlias 4, []); (DAlias 2, [])]);
+              Read false; ReadMeta false; ReadMeta false; ReadMeta false] in
+  let r := drun (dinit current [0; 0] inbox_cap [4; 4; 6]) evs in
+  small_history [4; 4; 6] evs /\ keeps_up [0; 0] inbox_cap 0 0 false evs = true /\
+  reads_of (snd r) =
+    [(Some (1, 7, [(9, [(1,11,3)]); (6, [])]), 0, [(1,7)], [(4,9)]);
+     (Some (2, 7, [(6, [(2,22,0)]); (9, []); (4, [])]), 0, [], [])] /\
+  metas_of (snd r) = [(Some (0, 100), 0); (Some (0, 102), 0); (None, 3)] /\ metaacks_of (snd r) = [3; 7].
 Proof. vm_compute. repeat split; reflexivity. Qed.
